@@ -2,7 +2,7 @@
    Statements only.  Proved: the primitives of the export table keep the count equation, the
    Release of an import carries exactly the references received and generations are never reused
    (F20), Close empties every table.  The history-level statements stay `_partial`. *)
-From CV Require Import Rpc.Rpc Rpc.RpcSpec Rpc.RpcProofs Rpc.RpcInv Rpc.RpcResp Rpc.RpcLocal Rpc.RpcHist Rpc.RpcQids Rpc.RpcRefuted.
+From CV Require Import Rpc.Rpc Rpc.RpcSpec Rpc.RpcProofs Rpc.RpcInv Rpc.RpcResp Rpc.RpcLocal Rpc.RpcHist Rpc.RpcQids Rpc.RpcImports Rpc.RpcRefuted.
 Open Scope Z_scope.
 
 (* ================= history-level theorem (second round) =================
@@ -22,9 +22,32 @@ Theorem C07_sent_is_descriptors : forall x s s1 d oe, send_cap cfg_fixed x s = O
   forall e, cget e (s_sent s1) = cget e (s_sent s) + (match d with DSH i => if e =? i then 1 else 0 | _ => 0 end) /\ s_rel s1 = s_rel s.
 Proof. exact send_cap_sent. Qed.
 Print Assumptions C07_sent_is_descriptors.
-(* import_release and close_releases_all remain at the strength of the first round (below): the
-   history-level forms need balances that thread through every release of a capability (all
-   handlers), which was not completed. *)
+(* import_release over histories.  [s_recv] is a ghost counter of the machine: the descriptors
+   (senderHosted / senderPromise) received per import id, bumped by addImport and nowhere else;
+   [rlsum i out] sums the referenceCounts of the Release messages for id i in the outbox; [wire i]
+   is the wireRefs of i's entry (0 if there is none).  While the connection is up:
+     rlsum i out + wire i = received i,   every entry has wireRefs > 0,
+     no entry -> everything received for i has been released (exactly, never more).
+   A Release is sent only by importClient.Shutdown of the entry's current generation, carries the
+   entry's wireRefs and deletes the entry ([C07_import_release_exact] below); the step that drops
+   the last local reference of the current client (no call in progress on it) is that step
+   ([C07_release_at_last_ref]).  When a re-import finds the entry of a client whose Shutdown is
+   still postponed, the new generation takes the entry over WITH its wireRefs (as import.go does):
+   the references of the old generation are then given back by the new generation's Release --
+   the balance is per import id, which is what the peer counts. *)
+Theorem C07_import_release : forall boot evs s out, work evs < 4294967295 -> run_o (init boot) evs [] = Ok (s, out) -> s_shut s = false ->
+  (forall i, rlsum i out + wire i (s_imp s) = cget i (s_recv s)) /\
+  (forall i e, aget i (s_imp s) = Some e -> 0 < i_wire e) /\
+  (forall i, aget i (s_imp s) = None -> rlsum i out = cget i (s_recv s)).
+Proof. exact import_release. Qed.
+Print Assumptions C07_import_release.
+Theorem C07_release_at_last_ref : forall i g s e s1 o, imp_release cfg_fixed i g s = Ok (s1, o) -> s_shut s = false ->
+  aget i (s_imp s) = Some e -> i_gen e = g -> i_refs e = 1 -> busy_get i g (s_busy s) = 0 ->
+  o = [ORelease i (i_wire e)] /\ aget i (s_imp s1) = None.
+Proof. exact release_at_last_ref. Qed.
+Print Assumptions C07_release_at_last_ref.
+(* close_releases_all remains at the strength of the first round (below): its history-level form
+   needs the accounting of every client reference ([s_lrefs]) through all handlers. *)
 
 (* ================= first round =================
    export_count, FULL STATEMENT as first written (its invariant part is now C07_export_count):
@@ -46,22 +69,19 @@ Theorem C07_export_count_partial : forall id n s, exp_count_ok s -> 0 <= n ->
 Proof. exact release_export_count. Qed.
 Print Assumptions C07_export_count_partial.
 
-(* import_release, FULL STATEMENT (not proved at this strength):
-     for every import generation exactly one Release is sent, when its last local reference goes,
-     with referenceCount = number of descriptors received for it.
-   PROVED PART: importClient.Shutdown of the current generation sends exactly [Release id wireRefs]
+(* import_release, handler level (the history-level form is C07_import_release above):
+   importClient.Shutdown of the current generation sends exactly [Release id wireRefs]
    and deletes the entry, any other generation sends nothing; addImport adds one to wireRefs per
    descriptor; a re-created client gets a generation no earlier client of the connection had.
-   MISSING: the induction over histories that the last local reference triggers the Shutdown once
-   (reference counters of import clients, [i_refs]). *)
-Theorem C07_import_release_partial : forall i g s s1 o, imp_shutdown cfg_fixed i g s = Ok (s1, o) ->
+   *)
+Theorem C07_import_release_exact : forall i g s s1 o, imp_shutdown cfg_fixed i g s = Ok (s1, o) ->
   match aget i (s_imp s) with
   | Some e => if negb (s_shut s) && (i_gen e =? g) then o = [ORelease i (i_wire e)] /\ aget i (s_imp s1) = None
               else o = [] /\ s1 = s
   | None => o = [] /\ s1 = s
   end.
 Proof. exact import_release_exact. Qed.
-Print Assumptions C07_import_release_partial.
+Print Assumptions C07_import_release_exact.
 
 Theorem C07_add_import_counts : forall i s,
   let '(s1, x) := add_import cfg_fixed i s in
